@@ -28,7 +28,10 @@ RULE = ('1-4 routes (target pattern: literals over an alphabet with %, space, re
         'printing int/bool/float/Decimal elements, from a cleared _segment_cache; (req) ONE request object whose '
         'SCRIPT_NAME changes between generations (request.script_name = ..., environ[SCRIPT_NAME] = ..., path_info_pop()), '
         'every generation judged (url = authority + path, way back under the mount point current THEN) against the '
-        'environ it was made under; non-trivial there = >= 2 successful generations under different SCRIPT_NAMEs')
+        'environ it was made under; non-trivial there = >= 2 successful generations under different SCRIPT_NAMEs.  Every case '
+        'is its own history: caches cleared and a fresh application (freshly compiled routes) per case; histories repeat '
+        'calls, leave out values an earlier call supplied (KeyError due), use equal-but-differently-printing extra elements, '
+        'quote one text under different safe sets (echo), and every match dictionary handed out is consumed by its receiver')
 ASSUMPTIONS = [
     'patterns are in C01\'s modelled sublanguage ({name:regex} = one character class with a quantifier); no pregenerator, no '
     'static routes, no route predicates; route names are unique',
